@@ -14,7 +14,7 @@ import (
 )
 
 func init() {
-	core.Register(core.Check{ID: "C08", Level: "exploration", Run: func(c *core.Ctx) { runC08(c); reentrancyPass(c, "C08") }})
+	core.Register(core.Check{ID: "C08", Level: "exploration", Run: func(c *core.Ctx) { runC08(c); historyPass(c, "C08"); reentrancyPass(c, "C08") }})
 }
 
 type c08curve struct {
